@@ -1129,7 +1129,7 @@ fn space(tier: &str) -> &'static Space {
         let via_modes: Vec<u64> = if script { vec![0, 1, 2] } else { vec![0] };
         // (handles, length) enumerations, each over every element type
         let (exhaustive, random): (Vec<(usize, usize)>, u64) = if tier == "thorough" {
-            (vec![(3, 1), (3, 2), (3, 3), (2, 4), (3, 4)], 40_000)
+            (vec![(3, 1), (3, 2), (3, 3), (2, 4), (3, 4)], 150_000)
         } else if tier == "search" {
             (vec![(3, 1), (3, 2), (3, 3), (2, 4)], 4000)
         } else {
@@ -1149,7 +1149,7 @@ fn space(tier: &str) -> &'static Space {
                 let size = (alpha.len() as u64).pow(len as u32);
                 for &vm in &via_modes {
                     // script / alternating enumeration only for the shorter blocks
-                    if vm != 0 && size > if tier == "thorough" { 3_000_000 } else { 600_000 } {
+                    if vm != 0 && size > if tier == "thorough" { 40_000_000 } else { 600_000 } {
                         continue;
                     }
                     let uses = alpha
@@ -1631,7 +1631,7 @@ fn main() {
             // random histories over nested lists with mutable shared inner lists
             {
                 let total_n: u64 = match tier.as_str() {
-                    "thorough" => 60_000,
+                    "thorough" => 200_000,
                     "search" => 10_000,
                     _ => 3000,
                 };
